@@ -7,8 +7,7 @@ Import ListNotations.
 Record case := { k_cfg : cfg; k_ops : list lop; k_obs : list lrec; k_preds : list bool }.
 
 Definition preds (k : case) : list bool :=
-  [late_refusal_v3_rsa_key (k_cfg k); string_refused_after_tor_started (k_cfg k);
-   disconnect_while_waiting (k_cfg k) (k_ops k)].
+  [disconnect_while_waiting (k_cfg k) (k_ops k)].
 
 Definition check (k : case) : verdict :=
   if negb (wf (k_cfg k) (k_ops k)) then VSkip else
